@@ -205,6 +205,9 @@ def programs(n_yields):
         # ONE S(v=Vars(last='init')) step shared by calls that write into their Vars between two reads
         dict(name='shared-vars-a', target=lambda: {'me': 'a'}, spec=lambda: _shared_vars(n_yields)),
         dict(name='shared-vars-b', target=lambda: {'me': 'b'}, spec=lambda: _shared_vars(n_yields)),
+        # ONE Iter(..).unique() pipeline object shared by overlapping calls: each call de-duplicates its own stream
+        dict(name='shared-unique', target=lambda: [i % 3 for i in range(max(n_yields, 1))], spec=lambda: _shared_unique()),
+        dict(name='shared-unique-b', target=lambda: [(i + 1) % 4 for i in range(max(n_yields, 1))], spec=lambda: _shared_unique()),
         # every call raises an exception of ITS OWN class; all these classes share one __name__
         dict(name='same-named-exceptions', target=lambda: {'cls': type('NotFound', (LookupError,) if next(_serial) % 2 else (ValueError,), {})},
              spec=lambda: chain(T) + (lambda t: (_ for _ in ()).throw(t['cls']('nf')),),
@@ -233,6 +236,15 @@ def _shared_first(n):
 
 _SHARED_COAL = {}
 _SHARED_VARS = {}
+
+
+_SHARED_UNIQUE = []
+
+
+def _shared_unique():
+    if not _SHARED_UNIQUE:
+        _SHARED_UNIQUE.append(Iter(Y).unique().map(T * 10).all())
+    return _SHARED_UNIQUE[0]
 
 
 def _shared_coalesce(n):
